@@ -6,7 +6,7 @@ TRUSTED_BASE = [
     "extraction: ExtrOcamlBasic + ExtrOcamlZBigInt (Extract Inductive positive/Z/N => Big_int_Z.big_int; Extract Constant Pos.add/succ/pred/sub/mul/min/max/compare/compare_cont, N.add/succ/pred/sub/mul/min/max/div_eucl/div/modulo/compare/shiftl/shiftr, Z.add/succ/pred/sub/mul/opp/abs/min/max/compare/eqb/eq_dec/to_N/of_N/abs_N/div_eucl/div/modulo/shiftl/shiftr; ExtrOcamlBasic: bool/option/unit/list/prod/sumbool/sumor/comparison) + zarith 1.12; cross-checked per run against an ExtrOcamlBasic-only build and vm_compute on a sub-sample",
     "Go float32/float64 arithmetic on amd64 (no FMA) = Coq.Floats.SpecFloat SFadd/SFsub/SFmul/SFdiv/SFsqrt at (24,128)/(53,1024): exercised bit-for-bit by every case",
     "OCaml driver glue (ocaml/*/driver.ml), Go harness generators/encoders, this script",
-    "axioms: none declared by this development; Print Assumptions reports 'Closed under the global context' for every property theorem except those proved through Flocq 4.1.0 (C18: validity closure of float operations, NaN-freedom, cosine range; C19: autocut never panics), which depend on the Coq standard library's real-number axioms ClassicalDedekindReals.sig_not_dec, ClassicalDedekindReals.sig_forall_dec, FunctionalExtensionality.functional_extensionality_dep and Classical_Prop.classic",
+    "axioms: none declared by this development; Print Assumptions reports 'Closed under the global context' for every property theorem except those proved through Flocq 4.1.0 (C18: validity closure of float operations, NaN-freedom, cosine range; C19: autocut never panics; C20: the float16 round-trip error bound), which depend on the Coq standard library's real-number axioms ClassicalDedekindReals.sig_not_dec, ClassicalDedekindReals.sig_forall_dec, FunctionalExtensionality.functional_extensionality_dep and Classical_Prop.classic",
 ]
 
 # Axioms declared by the Coq standard library that Print Assumptions may report (only the C18 theorems
@@ -133,8 +133,8 @@ PROPS["C12"] = {
 }
 
 PROPS["C20"] = {
-    "level_text": "Theorems for every input: k-means returns exactly min(k,n) centroids, one in-range assignment per vector, nil iff nothing to cluster, first-arg-min indices valid, determinism (a function); quantisers preserve length, int8 refuses to work untrained. The bit-exact transcriptions of clustering.go (stride initialisation, first arg-min, single-pass update, empty clusters keep their centroid, maxIter) and quantizer.go (binary16 rounding via SpecFloat at (11,16), math.Round half away from zero, scale by absMax) are compared with the code on training sets with duplicates, k>n, k=n, collinear data and boundary values; input immutability, run-to-run determinism and 'trained twice => search-identical' are observed on the implementation; finiteness, bounding box (Euclidean family) and the absMax/254 bound are evaluated on the implementation's outputs by the extracted oracle. The float16 clause is a spec oracle: |x - deq(q x)| <= 2^-11 |x| on the normal range (exact in float32), every binade, binade boundaries and rounding ties generated.",
-    "level_note": "Trusted: as C02 plus x448/float16 = IEEE round-to-nearest-even (exercised on boundary values). The real-number bounds (bounding box, half-ulp, absMax/254) are checked per run on outputs, not proved over floats (partial).",
+    "level_text": "Theorems for every input: k-means returns exactly min(k,n) centroids, one in-range assignment per vector, nil iff nothing to cluster, first-arg-min indices valid, determinism (a function); quantisers preserve length, int8 refuses to work untrained. The bit-exact transcriptions of clustering.go (stride initialisation, first arg-min, single-pass update, empty clusters keep their centroid, maxIter) and quantizer.go (binary16 rounding via SpecFloat at (11,16), math.Round half away from zero, scale by absMax) are compared with the code on training sets with duplicates, k>n, k=n, collinear data and boundary values; input immutability, run-to-run determinism and 'trained twice => search-identical' are observed on the implementation; finiteness, bounding box (Euclidean family) and the absMax/254 bound are evaluated on the implementation's outputs by the extracted oracle. The float16 clause is PROVED for every float32 in the binary16 normal range (the round trip is the round-to-nearest-even binary16 value, |deq(q x) - x| <= 2^-11 |x| over the reals; through the Flocq bridge) and is also a run-time oracle on the implementation's outputs (every binade, binade boundaries and rounding ties generated).",
+    "level_note": "Trusted: as C02 plus x448/float16 = IEEE round-to-nearest-even (exercised on boundary values). The float16 bound is proved through Flocq (stdlib real-number axioms, named in trusted_base); bounding box and absMax/254 are checked per run on outputs, not proved over floats (partial).",
     "correspondence": "clustering.go ~ Model.KMeans; quantizer.go ~ Model.Quantizer",
     "nontrivial_min_tokens": 12,
 }
